@@ -50,7 +50,7 @@ PLAN: dict[str, list[tuple[str, int, int]]] = {
     'C02': [('docsim', 3000, 40000)],
     'C03': [('docsim', 3000, 40000)],
     'C04': [('docsim', 3000, 40000)],
-    'C05': [('docsim', 3000, 40000)],
+    'C05': [('docsim', 2800, 40000), ('exprsim', 3000, 40000)],
     'C06': [('docsim', 2500, 30000)],
     'C09': [('docsim', 2500, 30000)],
     'C10': [('docsim', 3000, 40000)],
@@ -232,6 +232,10 @@ def write_evidence(prop, tier, base_seed, parts, n_viol, suppressed, wall, repla
                   'batch_digest': a['batch_digest'], 'not_started_wall_budget': a['not_started']})
         engines.append(d)
     faults = {k[len('fault:'):]: v for k, v in stats.items() if k.startswith('fault:')}
+    pairs = set()
+    for a in parts:
+        pairs |= a.get('pairs', set())
+    kinds = {x for pr in pairs for x in pr.split('>')}
     payload = {
         'property_id': prop,
         'tier': tier,
@@ -246,6 +250,8 @@ def write_evidence(prop, tier, base_seed, parts, n_viol, suppressed, wall, repla
             'simulated_time': 'no clock exists in the system under test; time is the step counter',
             'distinct_abstract_states': states,
             'fault_kinds_injected': faults,
+            'op_pair_coverage': {'distinct_consecutive_kind_pairs': len(pairs), 'distinct_kinds': len(kinds),
+                                 'fraction_of_all_ordered_pairs': round(len(pairs) / max(1, len(kinds) ** 2), 3)},
             'reach_probes_and_op_counts': {k: v for k, v in sorted(stats.items()) if not k.startswith('fault:')},
             'precondition_skips': dict(skipped),
             'known_finding_hits_suppressed': dict(suppressed) | dict(known_hits),
